@@ -90,6 +90,7 @@ def check_symbols(sc, ls):
     m = sc.module
     bases = _bases(sc)
     n_expected = 0
+    used_temps = set()
     for sect in sc.sections:
         items, _ = ls.positions(sect.name)
         for it, pos in items:
@@ -97,7 +98,25 @@ def check_symbols(sc, ls):
                 continue
             n_expected += 1
             syms = _find_symbols(sc, it.sym, it.temp)
-            eng.check(len(syms) == 1, "C02 symbol %s exists %d times" % (it.sym, len(syms)))
+            if it.temp:
+                # temporary labels of several patches may share a name up to the per-patch suffix: as many symbols as
+                # definitions, and each definition takes one that designates its position
+                want_n = sum(1 for sec2 in sc.sections for it2, _ in ls.positions(sec2.name)[0]
+                             if it2.t == "label" and it2.temp and it2.sym == it.sym)
+                eng.check(len(syms) == want_n, "C02 symbol %s exists %d times, %d definitions" % (it.sym, len(syms), want_n))
+                if want_n > 1:
+                    free = [x for x in syms if id(x) not in used_temps]
+                    hit = None
+                    for x in free:
+                        r = x.referent
+                        if isinstance(r, gtirb.ByteBlock) and r.byte_interval in bases and \
+                                eng.must(bases[r.byte_interval] + r.offset + (r.size if x.at_end else 0) == pos):
+                            hit = x
+                            break
+                    syms = [hit if hit is not None else free[0]]
+                    used_temps.add(id(syms[0]))
+            else:
+                eng.check(len(syms) == 1, "C02 symbol %s exists %d times" % (it.sym, len(syms)))
             s = syms[0]
             ref = s.referent
             eng.check(s.module is m, "C02 symbol %s is not in the module" % it.sym)
